@@ -5,13 +5,16 @@ pub mod c01;
 pub mod c02;
 pub mod c03;
 pub mod c04;
+pub mod c05;
 pub mod c06;
 pub mod c08;
 pub mod c09;
 pub mod c10;
 pub mod c10core;
+pub mod c11;
 pub mod c12;
 pub mod c13;
+pub mod c18;
 pub mod gwgen;
 
 macro_rules! dispatch {
@@ -30,12 +33,15 @@ pub fn run(id: &str, tier: Tier, seed: u64) -> i32 {
         "C02" => c02::C02,
         "C03" => c03::C03,
         "C04" => c04::C04,
+        "C05" => c05::C05,
         "C06" => c06::C06,
         "C08" => c08::C08,
         "C09" => c09::C09,
         "C10" => c10::C10,
+        "C11" => c11::C11,
         "C12" => c12::C12,
         "C13" => c13::C13,
+        "C18" => c18::C18,
     )
 }
 
@@ -46,11 +52,14 @@ pub fn replay(id: &str, path: &Path) -> i32 {
         "C02" => c02::C02,
         "C03" => c03::C03,
         "C04" => c04::C04,
+        "C05" => c05::C05,
         "C06" => c06::C06,
         "C08" => c08::C08,
         "C09" => c09::C09,
         "C10" => c10::C10,
+        "C11" => c11::C11,
         "C12" => c12::C12,
         "C13" => c13::C13,
+        "C18" => c18::C18,
     )
 }
